@@ -159,40 +159,68 @@ def boundary_values(s, w, limit=40):
     return out[:limit]
 
 
+CORPUS_STATS = {}
+
+
 def scalar_corpus():
-    """fixed (schema, witness) pairs with tight / coinciding bounds; run first by the validator-family checks"""
+    """fixed (schema, witness) pairs with tight / coinciding bounds; run first by the validator-family checks.
+    Every entry is built separately: one whose construction raises on the tree under test is skipped and counted
+    (CORPUS_STATS) instead of taking the whole check down."""
     from d42 import schema
     out = []
+
+    def add(expr, w, **env):
+        try:
+            out.append((eval(expr, {"schema": schema, **env}), w))  # noqa: S307 - fixed expressions below
+        except Exception as e:  # noqa: BLE001
+            k = "corpus_build_exception:" + type(e).__name__
+            CORPUS_STATS[k] = CORPUS_STATS.get(k, 0) + 1
+
     for v in (0, 5, -3):
-        out += [(schema.int(v), v), (schema.int(v).min(v), v), (schema.int(v).max(v), v), (schema.int(v).min(v).max(v), v),
-                (schema.int.min(v).max(v), v), (schema.int.min(v), v), (schema.int.max(v), v)]
+        for e in ("schema.int(v)", "schema.int(v).min(v)", "schema.int(v).max(v)", "schema.int(v).min(v).max(v)",
+                  "schema.int.min(v).max(v)", "schema.int.min(v)", "schema.int.max(v)", "schema.int.max(v).min(v)",
+                  "schema.int(v).max(v).min(v)"):
+            add(e, v, v=v)
     for v in (2.0, 0.1, -1.5, 1e10):
-        out += [(schema.float(v), v), (schema.float(v).min(v), v), (schema.float(v).max(v), v),
-                (schema.float(v).min(v).max(v), v), (schema.float.min(v).max(v), v), (schema.float.min(v), v),
-                (schema.float.max(v), v), (schema.float(v).precision(1), v), (schema.float(v).precision(1).max(v), v),
-                (schema.float(v).precision(2).min(v), v), (schema.float.min(v).precision(3), v)]
+        for e in ("schema.float(v)", "schema.float(v).min(v)", "schema.float(v).max(v)", "schema.float(v).min(v).max(v)",
+                  "schema.float.min(v).max(v)", "schema.float.min(v)", "schema.float.max(v)", "schema.float(v).precision(1)",
+                  "schema.float(v).precision(1).max(v)", "schema.float(v).precision(2).min(v)", "schema.float.min(v).precision(3)"):
+            add(e, v, v=v)
+    # fixed values with more digits than the declared precision: rounding ties and bounds that coincide with the value
+    for v in (1.115, 2.675, 3.149, 3.141, 0.125, -0.335, 1e-9, 123456.789):
+        for e in ("schema.float(v).precision(2)", "schema.float(v).precision(1)", "schema.float(v).precision(0)",
+                  "schema.float(v).max(v).precision(2)", "schema.float(v).min(v).precision(2)",
+                  "schema.float(v).precision(2).min(v).max(v)", "schema.float.precision(2).max(v) % v",
+                  "schema.float.precision(1).min(v) % v"):
+            add(e, v, v=v)
     for v in ("", "ab", "banana"):
-        n = len(v)
-        out += [(schema.str(v), v), (schema.str(v).len(n), v), (schema.str.len(n), v), (schema.str.len(n, ...), v),
-                (schema.str.len(..., n), v), (schema.str.len(n, n), v), (schema.str(v).len(n, ...), v),
-                (schema.str(v).len(..., n), v)]
-    out += [(schema.str.alphabet("ab").len(2), "ab"), (schema.str.contains("an").len(2, 6), "banana"),
-            (schema.str.alphabet("abn").contains("an"), "banana"), (schema.str.regex(r"^a+$").len if False else schema.str.regex(r"^a+$"), "aa")]
-    # unions whose alternatives are of the same kind and differ only below the top level
-    out += [(schema.any(schema.list(schema.int), schema.list(schema.str)), ["a", "b"]),
-            (schema.any(schema.list(schema.str), schema.list(schema.int)), [1]),
-            (schema.any(schema.dict({"id": schema.int}), schema.dict({"id": schema.str})), {"id": "x1"}),
-            (schema.any(schema.alias("uint", schema.int.min(0)), schema.alias("name", schema.str.len(1, ...))), "Bob"),
-            (schema.any(schema.list([schema.int]), schema.list([schema.str, schema.str]), schema.list([schema.none])), [None]),
-            (schema.dict({"m": schema.any(schema.dict({"k": schema.list(schema.int)}), schema.dict({"k": schema.list(schema.bool)}))}),
-             {"m": {"k": [True]}}),
-            (schema.any(schema.int.min(5), schema.int.max(0)), -1), (schema.any(schema.str.len(2), schema.str.len(3)), "abc")]
-    nested = []
-    for s, w in out[::3]:
-        nested += [(schema.dict({"k": s, "z": schema.none}), {"k": w, "z": None}), (schema.list([schema.none, s]), [None, w]),
-                   (schema.list(s).len(1, 2), [w]), (schema.any(schema.none, s), w),
-                   (schema.list([..., s, ...]), [None, w, None])]
-    return out + nested
+        for e in ("schema.str(v)", "schema.str(v).len(n)", "schema.str.len(n)", "schema.str.len(n, ...)", "schema.str.len(..., n)",
+                  "schema.str.len(n, n)", "schema.str(v).len(n, ...)", "schema.str(v).len(..., n)"):
+            add(e, v, v=v, n=len(v))
+    for e, w in [('schema.str.alphabet("ab").len(2)', "ab"), ('schema.str.contains("an").len(2, 6)', "banana"),
+                 ('schema.str.alphabet("abn").contains("an")', "banana"), ('schema.str.regex(r"^a+$")', "aa"),
+                 # unions whose alternatives are of the same kind and differ only below the top level
+                 ("schema.any(schema.list(schema.int), schema.list(schema.str))", ["a", "b"]),
+                 ("schema.any(schema.list(schema.str), schema.list(schema.int))", [1]),
+                 ('schema.any(schema.dict({"id": schema.int}), schema.dict({"id": schema.str}))', {"id": "x1"}),
+                 ('schema.any(schema.alias("uint", schema.int.min(0)), schema.alias("name", schema.str.len(1, ...)))', "Bob"),
+                 ("schema.any(schema.list([schema.int]), schema.list([schema.str, schema.str]), schema.list([schema.none]))", [None]),
+                 ('schema.dict({"m": schema.any(schema.dict({"k": schema.list(schema.int)}), '
+                  'schema.dict({"k": schema.list(schema.bool)}))})', {"m": {"k": [True]}}),
+                 ("schema.any(schema.int.min(5), schema.int.max(0))", -1), ("schema.any(schema.str.len(2), schema.str.len(3))", "abc"),
+                 # relaxed dicts whose `...: ...` entry is not the last one (declared so, or produced by +)
+                 ('schema.dict({...: ..., "id": schema.int})', {"id": 1, "x": 2}),
+                 ('schema.dict({"a": schema.str, ...: ..., "id": schema.int, optional("o"): schema.none})', {"a": "s", "id": 1}),
+                 ('schema.dict({"id": schema.int, ...: ...}) + schema.dict({"name": schema.str, optional("t"): schema.list})',
+                  {"id": 1, "name": "n"})]:
+        add(e, w, optional=__import__("d42").optional)
+    base = list(out)
+    for s, w in base[::3]:
+        for e, ww in (('schema.dict({"k": s, "z": schema.none})', {"k": w, "z": None}), ("schema.list([schema.none, s])", [None, w]),
+                      ("schema.list(s).len(1, 2)", [w]), ("schema.any(schema.none, s)", w),
+                      ("schema.list([..., s, ...])", [None, w, None])):
+            add(e, ww, s=s)
+    return out
 
 
 def list_form_value_cases(ctx):
